@@ -14,13 +14,25 @@ Every generated history is executed
     C07.sync_equiv);
   * mode B (arbitrary `deliver(h, k)`): the oracles at_most_once, eligible/exact at application
     time (that is `Spec`), and exactness against the single-server book for emits that no
-    membership change races.
+    membership change races;
+  * mode R (oracle only — the Lean model treats an emit as atomic, so these histories do not go through
+    the model): a membership change lands INSIDE an emit's local fan-out.  Op kind `raced` =
+    {outer: an `emit` issued on host h | `deliver(h,1)` of a channel emit, inner: what another thread of
+    h does meanwhile, after: inside which of the outer's transport writes, pos: before/after that write}.
+    inner is `deliver(h,1)` of a pending remote leave_room / enter_room / disconnect / close_room (the
+    listener thread), a local leave_room / enter_room / disconnect / close_room / CONNECT of a new client
+    (another application or request thread), or a client DISCONNECT frame (`cdisc`).  The statement for
+    a raced message: the call does not raise; at most once per client; every client that was addressed
+    on h both before the flight and after it receives it exactly once; a client addressed at no point
+    does not; it is published exactly once (after whatever the interfering action published) — and from
+    there on `Spec` says exactly what every other host delivers once it consumes the channel.
 """
 import collections
 import glob
 import hashlib
 import json
 import os
+import pickle
 import time
 
 from .. import common as C
@@ -144,10 +156,24 @@ class Spec:
                 if op['cb'] is not None:
                     self.asked[sid].append({'tok': op['cb'], 'issuer': m['origin'], 'open': True})
 
-    def _disconnect_local(self, h, ns, sid, obs):
+    def _local_recipients(self, h, op):
+        """whom an emit applied on host h right now would be sent to: sid -> transport"""
+        b = self.book[h]
+        rooms = emit_rooms(op['to'])
+        if rooms is None:
+            addressed = set(b.conn[op['ns']])
+        else:
+            addressed = set()
+            for r in rooms:
+                addressed |= b.mem[op['ns']][r]
+        return {sid: b.conn[op['ns']][sid] for sid in addressed
+                if sid in b.conn[op['ns']] and sid not in skip_list(op['skip'])}
+
+    def _disconnect_local(self, h, ns, sid, obs, notify=True):
         b = self.book[h]
         t = b.conn[ns][sid]
-        obs['frames'][t].append(('disc', ns))
+        if notify:
+            obs['frames'][t].append(('disc', ns))
         obs['app'].append(('disc', h, sid, ns))
         b.disconnect(ns, sid)
         for e in self.asked[sid]:
@@ -242,6 +268,47 @@ class Spec:
                 else:
                     self.chan.append({'kind': 'callback', 'issuer': e['issuer'], 'tok': e['tok'],
                                       'args': list(op['args'])})
+        elif k == 'cdisc':
+            # the client says DISCONNECT: its host runs the handler and forgets it, nothing is sent or published
+            h = self.home.get(op['sid'])
+            if h is not None and self.book[h].connected(op['ns'], op['sid']):
+                self._disconnect_local(h, op['ns'], op['sid'], obs, notify=False)
+        elif k == 'raced':
+            outer, inner = op['outer'], op['inner']
+            if outer['op'] == 'emit':
+                h = outer['via']
+                eop = outer
+                entry = None
+            else:
+                h = outer['h']
+                entry = self.chan[self.cursor[h]]
+                self.cursor[h] += 1
+                eop = entry['op']
+            ev, data = payload(eop)
+            pre = self._local_recipients(h, eop)
+            label = inner['op'] if inner['op'] == 'cdisc' else 'local.' + inner['op']
+            if inner['op'] == 'deliver':
+                nxt = self.chan[self.cursor[h]] if self.cursor[h] < len(self.chan) else None
+                label = 'deliver.' + (nxt['kind'] if nxt and (nxt['kind'] == 'callback' or nxt['origin'] != h)
+                                      else 'nothing')
+            sub = self.step(inner)
+            post = self._local_recipients(h, eop)
+            if entry is None:
+                self.chan.append({'kind': 'emit', 'origin': h, 'op': eop})
+            for t, v in sub['frames'].items():
+                obs['frames'][t].extend(v)
+            obs['app'] += sub['app']
+            for sid, t in pre.items():
+                if post.get(sid) == t:
+                    self.sent_to[eop['idx']][t] += 1
+            obs['raced'] = {
+                'ev': ev, 'host': h, 'frame': ('event', eop['ns'], [ev] + packed(data), False),
+                'stable': sorted(t for sid, t in pre.items() if post.get(sid) == t),
+                'union': sorted(set(pre.values()) | set(post.values())),
+                'n_pre': len(pre), 'inner_res': sub['res'], 'published': entry is None,
+                'label': ('emit' if entry is None else 'listener') + '/' + label,
+                'changed': set(pre.items()) != set(post.items()),
+            }
         elif k == 'deliver':
             h = op['h']
             end = min(len(self.chan), self.cursor[h] + op['k'])
@@ -501,14 +568,233 @@ def gen_scenario(rng, mode):
     return {'mode': mode, 'hosts': hosts, 'namespaces': namespaces, 'ops': ops}
 
 
+RACED_INNER = ['deliver.leave', 'deliver.enter', 'deliver.disconnect', 'deliver.close',
+               'local.leave', 'local.enter', 'local.disconnect', 'local.close', 'local.connect', 'cdisc']
+
+
+def gen_raced(rng):
+    """mode R: a cluster with several clients of one host in the same rooms, then emits whose local
+    fan-out on that host is interleaved with ONE interfering action (see the module docstring)"""
+    n_hosts = rng.choice([2, 2, 3])
+    hosts = ['h%d' % i for i in range(n_hosts)]
+    namespaces = ['/'] if rng.random() < 0.75 else ['/', '/a']
+    spec = Spec(hosts, namespaces)
+    ops = []
+    counter = {'sid': 0, 'idx': 0, 't': 0}
+    tr_host = {}
+
+    def push(op):
+        ops.append(op)
+        spec.step(op)
+
+    def new_transport(h):
+        t = 't%d' % counter['t']
+        counter['t'] += 1
+        tr_host[t] = h
+        return t
+
+    def do_connect(t, ns):
+        name = 's%d' % counter['sid']
+        counter['sid'] += 1
+        push({'op': 'connect', 'h': tr_host[t], 't': t, 'ns': ns, 'name': name})
+        return name
+
+    def connect_op(t, ns):
+        name = 's%d' % counter['sid']
+        counter['sid'] += 1
+        return {'op': 'connect', 'h': tr_host[t], 't': t, 'ns': ns, 'name': name}
+
+    def drain(h=None):
+        for x in ([h] if h else hosts):
+            if spec.cursor[x] < len(spec.chan):
+                push({'op': 'deliver', 'h': x, 'k': BIG})
+
+    busy = rng.choice(hosts)                 # most raced fan-outs happen here
+    for h in hosts:
+        for _ in range(rng.randint(3, 5) if h == busy else rng.randint(1, 2)):
+            t = new_transport(h)
+            for i, ns in enumerate(namespaces):
+                if rng.random() < (0.95 if i == 0 else 0.6):
+                    do_connect(t, ns)
+    for ns in namespaces:
+        for sid in list(spec.all_connected(ns)):
+            for r, p in (('r1', 0.8), ('r2', 0.45)):
+                if rng.random() < p:
+                    push({'op': 'enter', 'via': spec.where(ns, sid) if rng.random() < 0.8 else rng.choice(hosts),
+                          'ns': ns, 'sid': sid, 'room': {'r': r}})
+    drain()
+
+    def other(h):
+        return rng.choice([x for x in hosts if x != h])
+
+    def an_emit(v, ns, h):
+        """an emit (no callback) with >= 1 recipient on host h, or None"""
+        for _ in range(6):
+            y = rng.random()
+            if y < 0.5:
+                to = {'r': 'r1'}
+            elif y < 0.62:
+                to = {'r': 'r2'}
+            elif y < 0.82:
+                to = None
+            elif y < 0.94:
+                to = {'list': rng.choice([[{'r': 'r1'}, {'r': 'r2'}], [{'r': 'r2'}, {'r': 'r1'}], [{'r': 'r1'}]])}
+            else:
+                here = sorted(spec.book[h].conn[ns])
+                if not here:
+                    continue
+                to = {'s': rng.choice(here)}
+            skip = None
+            if rng.random() < 0.3:
+                cands = sorted(spec._local_recipients(h, {'ns': ns, 'to': to, 'skip': None}))
+                if cands:
+                    s1 = rng.choice(cands)
+                    skip = {'one': s1} if rng.random() < 0.7 else {'many': [s1, rng.choice(cands)]}
+            e = {'op': 'emit', 'via': v, 'ns': ns, 'to': to, 'skip': skip, 'cb': None, 'idx': counter['idx'],
+                 'data': rng.choice(DATA_KINDS)}
+            n = len(spec._local_recipients(h, e))
+            if n >= 2 or (n == 1 and rng.random() < 0.25):
+                counter['idx'] += 1
+                return e
+        return None
+
+    def one_raced():
+        h = busy if rng.random() < 0.8 else rng.choice(hosts)
+        ns = namespaces[0] if rng.random() < 0.75 else rng.choice(namespaces)
+        listener = rng.random() < 0.3
+        if listener:
+            # the emit comes from another host (or the write-only manager): h's listener thread fans it out
+            drain(h)
+            e = an_emit(None if rng.random() < 0.2 else other(h), ns, h)
+            if e is None:
+                return
+            push(e)
+            outer = {'op': 'deliver', 'h': h, 'k': 1}
+        else:
+            e = an_emit(h, ns, h)
+            if e is None:
+                return
+            outer = e
+        pre = spec._local_recipients(h, e)
+        rooms = emit_rooms(e['to'])
+        here = sorted(spec.book[h].conn[ns])
+        kinds = [x for x in RACED_INNER if not (listener and x.startswith('deliver.'))]
+        if rooms is None:
+            # everybody is addressed: only connections count (room changes are tried as well, rarely)
+            kinds = [x for x in kinds if x.split('.')[-1] in ('disconnect', 'connect', 'cdisc') or rng.random() < 0.15]
+        kind = rng.choice(kinds)
+        what = kind.split('.')[-1]
+        member = rng.choice(sorted(pre)) if rng.random() < 0.85 else rng.choice(here)
+        outsiders = [x for x in here if x not in pre]
+        room = rng.choice(rooms) if rooms else rng.choice(['r1', 'r2'])
+        room = {'r': room} if room in PLAIN_ROOMS else {'s': room}
+        if what == 'leave':
+            act = {'op': 'leave', 'ns': ns, 'sid': member, 'room': room}
+        elif what == 'enter':
+            act = {'op': 'enter', 'ns': ns, 'sid': rng.choice(outsiders) if outsiders and rng.random() < 0.85 else member,
+                   'room': room}
+        elif what == 'disconnect':
+            act = {'op': 'disconnect', 'ns': ns, 'sid': member if rng.random() < 0.8 or not outsiders
+                   else rng.choice(outsiders)}
+        elif what == 'close':
+            act = {'op': 'close', 'ns': ns, 'room': room}
+        elif what == 'cdisc':
+            act = {'op': 'cdisc', 'ns': ns, 'sid': member if rng.random() < 0.8 or not outsiders
+                   else rng.choice(outsiders)}
+        else:
+            free_t = [t for t in tr_host if tr_host[t] == h and spec.book[h].tsid(ns, t) is None]
+            t = rng.choice(free_t) if free_t and rng.random() < 0.5 else new_transport(h)
+            act = connect_op(t, ns)
+        if kind.startswith('deliver.'):
+            if not listener:
+                drain(h)
+            act['via'] = other(h)
+            push(act)                       # published by another host: pending for h
+            inner = {'op': 'deliver', 'h': h, 'k': 1}
+        else:
+            if 'via' not in act and act['op'] in ('leave', 'enter', 'disconnect', 'close'):
+                act['via'] = h
+            inner = act
+        push({'op': 'raced', 'outer': outer, 'inner': inner, 'after': rng.randrange(len(pre)),
+              'pos': rng.choice(['pre', 'post'])})
+
+    def filler():
+        x = rng.random()
+        ns = rng.choice(namespaces)
+        cur = spec.all_connected(ns)
+        if x < 0.3 and cur:
+            push({'op': 'enter', 'via': rng.choice(hosts), 'ns': ns, 'sid': rng.choice(cur),
+                  'room': {'r': rng.choice(['r1', 'r2'])}})
+        elif x < 0.4 and cur:
+            push({'op': 'leave', 'via': rng.choice(hosts), 'ns': ns, 'sid': rng.choice(cur),
+                  'room': {'r': rng.choice(['r1', 'r2'])}})
+        elif x < 0.75:
+            e = an_emit(rng.choice(hosts), ns, busy)
+            if e is not None:
+                push(e)
+        else:
+            push({'op': 'deliver', 'h': rng.choice(hosts), 'k': rng.choice([1, 2, BIG])})
+
+    for _ in range(rng.choice([1, 1, 2, 3])):
+        for _ in range(rng.choice([0, 0, 1, 2])):
+            filler()
+        n0 = len(ops)
+        for _ in range(4):
+            one_raced()
+            if len(ops) > n0 and ops[-1]['op'] == 'raced':
+                break
+        if rng.random() < 0.5:
+            filler()
+    for _ in range(2):
+        for h in hosts:
+            ops.append({'op': 'deliver', 'h': h, 'k': BIG})
+    return {'mode': 'R', 'hosts': hosts, 'namespaces': namespaces, 'ops': ops}
+
+
 def in_domain(sc):
     """the quantifier of C07 plus what the executors need"""
     spec = Spec(sc['hosts'], sc['namespaces'])
-    single = Book(sc['namespaces'])
     seen_names = set()
     conn_t = {}
-    for op in sc['ops']:
+
+    def raced_ok(op):
+        outer, inner = op.get('outer') or {}, op.get('inner') or {}
+        if sc['mode'] != 'R' or op.get('pos', 'pre') not in ('pre', 'post'):
+            return False
+        if outer.get('op') == 'emit':
+            if outer['via'] is None or outer['cb'] is not None or not op_ok(outer):
+                return False
+            h, e = outer['via'], outer
+        elif outer.get('op') == 'deliver':
+            h = outer['h']
+            if outer['k'] != 1 or h not in spec.cursor or spec.cursor[h] >= len(spec.chan):
+                return False
+            m = spec.chan[spec.cursor[h]]
+            if m['kind'] != 'emit' or m['origin'] == h or m['op']['cb'] is not None:
+                return False
+            e = m['op']
+        else:
+            return False
+        if not isinstance(op.get('after'), int) or not 0 <= op['after'] < len(spec._local_recipients(h, e)):
+            return False
+        ik = inner.get('op')
+        if ik == 'deliver':
+            # the listener thread of h: one thread, so not while it is itself delivering the outer emit
+            return outer['op'] == 'emit' and inner['h'] == h and inner['k'] == 1 and spec.cursor[h] < len(spec.chan)
+        if ik in ('enter', 'leave', 'disconnect', 'close'):
+            return inner['via'] == h and op_ok(inner)
+        if ik == 'connect':
+            return inner['h'] == h and op_ok(inner)
+        if ik == 'cdisc':
+            return op_ok(inner) and spec.home.get(inner['sid']) == h
+        return False
+
+    def op_ok(op):
         k = op['op']
+        if k == 'raced':
+            return raced_ok(op)
+        if k == 'cdisc' and sc['mode'] != 'R':
+            return False
         if k == 'connect':
             if op['name'] in seen_names:
                 return False
@@ -516,8 +802,7 @@ def in_domain(sc):
                 return False
             if spec.book[op['h']].tsid(op['ns'], op['t']) is not None:
                 return False
-            seen_names.add(op['name'])
-        elif k in ('enter', 'leave', 'disconnect', 'ack'):
+        elif k in ('enter', 'leave', 'disconnect', 'ack', 'cdisc'):
             if op['sid'] not in seen_names:
                 return False
         if k in ('enter', 'leave', 'close') and 's' in op['room'] and op['room']['s'] not in seen_names:
@@ -540,6 +825,15 @@ def in_domain(sc):
                     return False
         if k in ('deliver', 'drain') and sc['mode'] == 'A':
             return False
+        return True
+
+    for op in sc['ops']:
+        if not op_ok(op):
+            return False
+        for c in ([op['inner'], op['outer']] if op['op'] == 'raced' else [op]):
+            if c['op'] == 'connect':
+                seen_names.add(c['name'])
+                conn_t.setdefault(c['t'], c['h'])
         spec.step(op)
         if sc['mode'] == 'A':
             spec.step({'op': 'drain'})
@@ -658,62 +952,106 @@ def run_cluster(family, sc):
             pw.app.append(('cb', cur['host'], tok, list(a)))
         return cb
 
+    def exec_op(op, extra_frames, info):
+        k = op['op']
+        res = ('ok', None)
+        if k == 'connect':
+            cur['host'] = op['h']
+            if op['t'] not in tids:
+                tids.append(op['t'])
+            sid, rest = pw.connect(op['h'], op['t'], op['ns'])
+            if sid is None:
+                res = ('exc', 'refused')
+            else:
+                names.bind(op['name'], sid)
+                tid_ns_name[(op['t'], op['ns'])] = op['name']
+            if rest:
+                extra_frames.setdefault(op['t'], []).extend(rest)
+        elif k == 'enter':
+            cur['host'] = op['via']
+            res = pw.api(op['via'], 'enter_room', names.sid(op['sid']), names.room(op['room']), namespace=op['ns'])
+        elif k == 'leave':
+            cur['host'] = op['via']
+            res = pw.api(op['via'], 'leave_room', names.sid(op['sid']), names.room(op['room']), namespace=op['ns'])
+        elif k == 'close':
+            cur['host'] = op['via']
+            res = pw.api(op['via'], 'close_room', names.room(op['room']), namespace=op['ns'])
+        elif k == 'disconnect':
+            cur['host'] = op['via']
+            res = pw.api(op['via'], 'disconnect', names.sid(op['sid']), namespace=op['ns'])
+        elif k == 'emit':
+            ev, data = payload(op)
+            target, skip = api_args(names, op)
+            cb = mk_cb(op['cb']) if op['cb'] is not None else None
+            if op['via'] is None:
+                cur['host'] = 'wo'
+                res = pw.wo_emit(ev, data, namespace=op['ns'], room=target, skip_sid=skip, callback=cb)
+            else:
+                cur['host'] = op['via']
+                res = pw.api(op['via'], 'emit', ev, data, to=target, skip_sid=skip, namespace=op['ns'],
+                             callback=cb)
+        elif k == 'ack':
+            t = next((t for (t, ns), nm in tid_ns_name.items() if nm == op['sid'] and ns == op['ns']), None)
+            if t is not None and op['n'] < len(asked[op['sid']]):
+                cur['host'] = pw.ids[pw.where[t]]
+                for fr in ack_frame(op['ns'], asked[op['sid']][op['n']], op['args']):
+                    r, contained = pw.recv(t, fr)
+                    if contained:
+                        res = ('exc', contained[0][1])
+        elif k == 'cdisc':
+            # the client's DISCONNECT packet arrives on its transport
+            t = next((t for (t, ns), nm in tid_ns_name.items() if nm == op['sid'] and ns == op['ns']), None)
+            if t is not None:
+                cur['host'] = pw.ids[pw.where[t]]
+                r, contained = pw.recv(t, '1' if op['ns'] == '/' else '1%s,' % op['ns'])
+                if r[0] != 'ok':
+                    res = r
+                elif contained:
+                    res = ('exc', contained[0][1])
+        elif k == 'raced':
+            outer, inner = op['outer'], op['inner']
+            if outer['op'] == 'emit':
+                h = outer['via']
+                ev = payload(outer)[0]
+            else:
+                h = outer['h']
+                m = pw.mgr[pw.index(h)]
+                ev = None
+                if m.cursor < len(pw.chan.msgs) and isinstance(pw.chan.msgs[m.cursor], bytes):
+                    ev = pickle.loads(pw.chan.msgs[m.cursor]).get('event')
+            if inner['op'] == 'connect' and inner['t'] not in pw.where:
+                pw.open(inner['h'], inner['t'])     # the engine.io connection exists before the flight
+            needle = '[' + json.dumps(ev)
+            box = {}
+
+            def action():
+                box['res'] = exec_op(inner, extra_frames, info)
+                cur['host'] = h
+
+            pw.arm(h, lambda text: needle in text, op['after'], op.get('pos', 'pre'), action)
+            try:
+                res = exec_op(outer, extra_frames, info)
+            finally:
+                fired = pw.disarm(h)
+            if not fired:
+                action()                            # keeps the rest of the history meaningful; reported
+            info['fired'] = fired
+            info['inner_res'] = 'ok' if box['res'][0] == 'ok' else box['res'][1]
+        elif k == 'deliver':
+            cur['host'] = op['h']
+            res = pw.deliver(op['h'], op['k'])
+        elif k == 'drain':
+            for h in sc['hosts']:
+                cur['host'] = h
+                pw.deliver(h, BIG)
+        return res
+
     try:
         for op in sc['ops']:
-            k = op['op']
-            res = ('ok', None)
             n_pub0 = len(pw.chan.published)
             extra_frames = {}
-            if k == 'connect':
-                cur['host'] = op['h']
-                if op['t'] not in tids:
-                    tids.append(op['t'])
-                sid, rest = pw.connect(op['h'], op['t'], op['ns'])
-                if sid is None:
-                    res = ('exc', 'refused')
-                else:
-                    names.bind(op['name'], sid)
-                    tid_ns_name[(op['t'], op['ns'])] = op['name']
-                if rest:
-                    extra_frames[op['t']] = rest
-            elif k == 'enter':
-                cur['host'] = op['via']
-                res = pw.api(op['via'], 'enter_room', names.sid(op['sid']), names.room(op['room']), namespace=op['ns'])
-            elif k == 'leave':
-                cur['host'] = op['via']
-                res = pw.api(op['via'], 'leave_room', names.sid(op['sid']), names.room(op['room']), namespace=op['ns'])
-            elif k == 'close':
-                cur['host'] = op['via']
-                res = pw.api(op['via'], 'close_room', names.room(op['room']), namespace=op['ns'])
-            elif k == 'disconnect':
-                cur['host'] = op['via']
-                res = pw.api(op['via'], 'disconnect', names.sid(op['sid']), namespace=op['ns'])
-            elif k == 'emit':
-                ev, data = payload(op)
-                target, skip = api_args(names, op)
-                cb = mk_cb(op['cb']) if op['cb'] is not None else None
-                if op['via'] is None:
-                    cur['host'] = 'wo'
-                    res = pw.wo_emit(ev, data, namespace=op['ns'], room=target, skip_sid=skip, callback=cb)
-                else:
-                    cur['host'] = op['via']
-                    res = pw.api(op['via'], 'emit', ev, data, to=target, skip_sid=skip, namespace=op['ns'],
-                                 callback=cb)
-            elif k == 'ack':
-                t = next((t for (t, ns), nm in tid_ns_name.items() if nm == op['sid'] and ns == op['ns']), None)
-                if t is not None and op['n'] < len(asked[op['sid']]):
-                    cur['host'] = pw.ids[pw.where[t]]
-                    for fr in ack_frame(op['ns'], asked[op['sid']][op['n']], op['args']):
-                        r, contained = pw.recv(t, fr)
-                        if contained:
-                            res = ('exc', contained[0][1])
-            elif k == 'deliver':
-                cur['host'] = op['h']
-                res = pw.deliver(op['h'], op['k'])
-            elif k == 'drain':
-                for h in sc['hosts']:
-                    cur['host'] = h
-                    pw.deliver(h, BIG)
+            info = {}
+            res = exec_op(op, extra_frames, info)
             if sc['mode'] == 'A':
                 for h in sc['hosts']:
                     cur['host'] = h
@@ -743,9 +1081,10 @@ def run_cluster(family, sc):
             status = 'ok' if res[0] == 'ok' else res[1]
             if status == 'RuntimeError':
                 status = 'Exception'
-            trace.append({'frames': frames, 'app': app, 'pub': pub, 'res': status,
-                          'log': [(x[0], x[2], x[3]) for x in pw.log if x[1] == 'exception'],
-                          'drained': pw.drained()})
+            trace.append(dict(info, frames=frames, app=app, pub=pub, res=status,
+                              raised=None if res[0] == 'ok' else res[1],
+                              log=[(x[0], x[2], x[3]) for x in pw.log if x[1] == 'exception'],
+                              drained=pw.drained()))
             pw.log.clear()
     finally:
         pw.close()
@@ -968,6 +1307,8 @@ def oracle_failures(sc, real, single_real=None):
     delivered = collections.defaultdict(collections.Counter)     # emit idx -> tid -> count
     ev_idx = {}
     for op in sc['ops']:
+        if op['op'] == 'raced':
+            op = op['outer']
         if op['op'] == 'emit':
             ev_idx[payload(op)[0]] = op['idx']
     for i, (op, got) in enumerate(zip(sc['ops'], real)):
@@ -979,6 +1320,48 @@ def oracle_failures(sc, real, single_real=None):
             want['app'] += w2['app']
             want['pub'] += w2['pub']
         gseen = seen_view(got['frames'])
+        if 'raced' in want:
+            # a membership change landed inside this message's fan-out on host rc['host']: what the
+            # statement fixes is judged here; everything else the operation did is the interfering
+            # action's own (exact) outcome, compared below once the raced message is set aside
+            rc = want['raced']
+            what = 'raced op %s [%s, inside write %d of %d]' % (json.dumps(op), rc['label'], op['after'], rc['n_pre'])
+            n_got = collections.Counter()
+            rest = {}
+            for t, fr in gseen.items():
+                keep = []
+                for f in fr:
+                    if f[0] == 'event' and f[2] and f[2][0] == rc['ev']:
+                        n_got[t] += 1
+                        if jl(f) != jl(rc['frame']):
+                            bad.append((i, '%s: client %s received %r, the message is %r' % (what, t, f, rc['frame'])))
+                    else:
+                        keep.append(f)
+                if keep:
+                    rest[t] = keep
+            gseen = rest
+            if got['raised'] is not None:
+                bad.append((i, '%s: the call raised %s' % (what, got['raised'])))
+            for t in rc['stable']:
+                if n_got[t] != 1:
+                    bad.append((i, '%s: client %s was addressed on %s before, during and after the flight and '
+                                   'received the message %d times' % (what, t, rc['host'], n_got[t])))
+            for t, n in n_got.items():
+                if t not in rc['union']:
+                    bad.append((i, '%s: client %s was addressed at no point of the flight and received the '
+                                   'message' % (what, t)))
+                elif n > 1:
+                    bad.append((i, '%s: client %s received the message %d times' % (what, t, n)))
+            if not got.get('fired'):
+                bad.append((i, '%s: the fan-out made fewer than %d writes' % (what, op['after'] + 1)))
+            if got.get('inner_res') != rc['inner_res']:
+                bad.append((i, '%s: the interfering action must end with %r, ended with %r' % (
+                    what, rc['inner_res'], got.get('inner_res'))))
+            mine = [d for d in got['pub'] if d.get('method') == 'emit' and d.get('event') == rc['ev']]
+            if len(mine) != (1 if rc['published'] else 0) or (mine and got['pub'][-1] is not mine[0]):
+                bad.append((i, '%s: the message must be published %s, channel got %r' % (
+                    what, 'exactly once, after what the interfering action published' if rc['published']
+                    else 'by nobody again', got['pub'])))
         for t in set(gseen) | set(want['frames']):
             if jl(gseen.get(t, [])) != jl(want['frames'].get(t, [])):
                 bad.append((i, 'op %s: client %s must receive %r, received %r' % (
@@ -1139,6 +1522,11 @@ def nontrivial(sc):
     spec = Spec(sc['hosts'], sc['namespaces'])
     n = 0
     for op in sc['ops']:
+        if op['op'] == 'raced':
+            # the interfering action changed who is addressed on the host while the fan-out was under way
+            if spec.step(op)['raced']['changed']:
+                n += 1
+            continue
         if op['op'] == 'emit':
             hosts = set()
             rooms = emit_rooms(op['to'])
@@ -1159,13 +1547,14 @@ def nontrivial(sc):
 def judge(ctx, drv, family, sc, shrink_it=True):
     real = run_cluster(family, sc)
     single_real = run_single(family, sc) if sc['mode'] == 'A' else None
-    cmodel, smodel = run_model(drv, sc)
+    oracle_only = sc['mode'] == 'R'          # emits are atomic in the model: no correspondence for raced fan-outs
+    cmodel, smodel = ([], []) if oracle_only else run_model(drv, sc)
     obad = oracle_failures(sc, real, single_real)
     checked = 0
     if sc['mode'] == 'B' and not obad:
         ub, checked = unraced_failures(sc, real)
         obad += ub
-    cbad = correspondence_failures(sc, real, cmodel)
+    cbad = [] if oracle_only else correspondence_failures(sc, real, cmodel)
     ebad = model_equiv_failures(sc, cmodel, smodel) if sc['mode'] == 'A' else []
     if obad:
         small = sc
@@ -1218,14 +1607,19 @@ def run(ctx):
     nontriv = set()
     samples = []
     unraced_checked = 0
+    raced_ops = 0
     try:
         cases = []
         for path in sorted(glob.glob(os.path.join(C.ROOT, 'corpus', 'C07', '*.json'))):
             r = json.load(open(path))
             r = r.get('replay', r)
             cases.append((r, 'corpus'))
+        n_raced = ctx.scale(260, 4000)
+        every = max(1, n_hist // n_raced)
         for i in range(n_hist):
             cases.append((gen_scenario(rng, 'A' if i % 2 == 0 else 'B'), 'generated'))
+            if i % every == 0 and i // every < n_raced:
+                cases.append((gen_raced(rng), 'generated'))
         for sc, origin in cases:
             if time.time() > deadline or failures >= 3:
                 ctx.notes.append('stopped after %d histories (time budget or 3 failing histories)' % evals)
@@ -1242,6 +1636,20 @@ def run(ctx):
                     ctx.count('emit.via.' + ('write_only' if op['via'] is None else 'host'))
                     if op['cb'] is not None:
                         ctx.count('emit.callback')
+            if sc['mode'] == 'R':
+                rspec = Spec(sc['hosts'], sc['namespaces'])
+                for op in sc['ops']:
+                    o = rspec.step(op)
+                    if op['op'] == 'raced':
+                        rc = o['raced']
+                        raced_ops += 1
+                        ctx.count('raced.' + rc['label'])
+                        ctx.count('raced.membership_' + ('changed_in_flight' if rc['changed'] else 'unchanged'))
+                        ctx.count('raced.write.%s.%s' % (
+                            'first' if op['after'] == 0 else 'last' if op['after'] == rc['n_pre'] - 1 else 'middle',
+                            op.get('pos', 'pre')))
+                        ctx.count('raced.clients_addressed_throughout', len(rc['stable']))
+                        ctx.count('raced.clients_whose_membership_changed', len(rc['union']) - len(rc['stable']))
             good = True
             fams = [sc['family']] if sc.get('family') else ['threading', 'asyncio']
             for family in fams:
@@ -1259,7 +1667,9 @@ def run(ctx):
             if nt:
                 nontriv.add(hashlib.sha1(json.dumps(sc, sort_keys=True).encode()).hexdigest())
                 ctx.count('nontrivial_events', nt)
-                if len(samples) < 2 and len(sc['ops']) <= 16:
+                is_r = sc['mode'] == 'R'
+                if len(sc['ops']) <= (30 if is_r else 16) and \
+                        sum(1 for x in samples if (x['mode'] == 'R') == is_r) < (1 if is_r else 2):
                     samples.append(sc)
     finally:
         drv.close()
@@ -1270,8 +1680,21 @@ def run(ctx):
                 'even ones with every host draining after every operation, odd ones with arbitrary deliver(h,k)) '
                 'executed on real Server+PubSubManager hosts, on the AsyncServer twin, on one real plain server '
                 '(mode A), on the Lean model and on the oracle, every operation compared. non-trivial = distinct '
-                'history with an emit whose recipients live on >= 2 hosts or a callback that crosses hosts',
+                'history with an emit whose recipients live on >= 2 hosts or a callback that crosses hosts, or '
+                '(mode R) a fan-out during which the set of addressed clients of the host changed',
         'samples': samples, 'traces_validated_against_impl': validated,
+        'raced_fanouts': raced_ops,
+        'raced_fanouts_rule': 'mode R histories (real threaded hosts and asyncio twins, ORACLE ONLY: the Lean model '
+                              'treats an emit as atomic, so there is no model correspondence for them): inside the '
+                              'k-th transport write of an emit\'s local fan-out (k = 0..n-1, before or after the '
+                              'write) one scripted interfering action runs re-entrantly and the emit then continues. '
+                              'Counters `raced.<emit|listener>/<action>`: emit = an emit() issued on the host, '
+                              'listener = the host delivering a channel emit; action = deliver.<kind> (the listener '
+                              'applies a pending remote leave/enter/disconnect/close), local.<leave|enter|disconnect|'
+                              'close|connect> (another local thread), cdisc (a client DISCONNECT frame arrives). '
+                              'Judged by the statement: no exception, at most once, exactly once for clients '
+                              'addressed before and after, never for clients addressed at no point, published '
+                              'exactly once; other hosts exact via Spec once they consume the channel',
     })
     ctx.assumptions += [
         'an emit with a callback addresses one client by its session id, and nobody else is in that personal '
@@ -1280,7 +1703,10 @@ def run(ctx):
         'clients acknowledge only ids they were asked for (hostile ACKs: C06/C12)',
         'session ids are fresh (engine.io generator), a transport lives on one host',
         'falsy / empty targets are not generated; room names are strings or session ids',
-        'client-initiated DISCONNECT and transport loss are not part of the C07 operation set (C04/C11)',
+        'client-initiated DISCONNECT appears only as the interfering action of a raced fan-out (mode R); transport '
+        'loss is not part of the C07 operation set (C04/C11)',
+        'mode R runs the interfering action re-entrantly on the emitting thread inside a transport write (what a '
+        'second thread does between two sends); preemption at other points of the fan-out loop is not generated',
     ]
 
 
@@ -1290,13 +1716,18 @@ def replay(ctx, r):
     fams = [r['family']] if r.get('family') else ['threading', 'asyncio']
     drv = C.Driver('pubsub')
     rc = 0
+    oracle_only = sc['mode'] == 'R'
     try:
-        cmodel, smodel = run_model(drv, sc)
+        cmodel, smodel = ([], []) if oracle_only else run_model(drv, sc)
         for family in fams:
             real = run_cluster(family, sc)
             single = run_single(family, sc) if sc['mode'] == 'A' else None
             print('--- %s' % family)
             for i, op in enumerate(sc['ops']):
+                if oracle_only:
+                    print('%3d %s\n      impl   %r' % (i, json.dumps(op), {k: real[i].get(k) for k in (
+                        'frames', 'app', 'pub', 'res', 'raised', 'fired', 'inner_res', 'log') if k in real[i]}))
+                    continue
                 print('%3d %s\n      impl   %r\n      model  %r' % (
                     i, json.dumps(op), {k: real[i][k] for k in ('frames', 'app', 'pub', 'res')},
                     {k: cmodel[i][k] for k in ('frames', 'app', 'pub', 'res')}))
@@ -1305,9 +1736,11 @@ def replay(ctx, r):
             obad = oracle_failures(sc, real, single)
             if sc['mode'] == 'B':
                 obad += unraced_failures(sc, real)[0]
-            cbad = correspondence_failures(sc, real, cmodel)
+            cbad = [] if oracle_only else correspondence_failures(sc, real, cmodel)
             print('oracle: %s' % ('FAILS: ' + '; '.join(b[1] for b in obad) if obad else 'holds'))
-            print('correspondence: %s' % ('DIFFERS: ' + '; '.join(b[1] for b in cbad) if cbad else 'agrees'))
+            print('correspondence: %s' % ('not applicable (mode R is oracle-only: the model\'s emits are atomic)'
+                                          if oracle_only else 'DIFFERS: ' + '; '.join(b[1] for b in cbad) if cbad
+                                          else 'agrees'))
             if obad or cbad:
                 rc = 1
     finally:
